@@ -2,7 +2,7 @@
 // Child module of src/raft/storage.rs (current file of /repo, in the `vslice_raft` slice crate, after the
 // de-async normalisation).  One inductive step: the pre-state is an ARBITRARY log of concrete length L whose
 // (index, term) pairs are symbolic 64-bit values satisfying the representation invariant the property states
-// (indices strictly increasing and above the snapshot index), plus symbolic snapshot metadata; then ONE
+// (indices strictly increasing: one entry per index), plus symbolic snapshot metadata; then ONE
 // operation with symbolic arguments; the post-conditions are the statement's clauses and the invariant again.
 #![allow(dead_code, unused_imports)]
 include!("/verif/harness/vk_prelude.rs");
@@ -35,7 +35,8 @@ fn pre(l: usize, with_snap: bool, cidx: bool) -> (RaftStorage, M) {
         let si: u64 = if cidx { 5 } else { kani::any() };
         let st: u64 = kani::any();
         m.snap = Some((si, st));
-        lo = si;
+        // NOT assumed: that retained entries lie above the snapshot index.  The public API lets a caller append
+        // at or below it, and the statement still fixes what must be reported then (the newest retained entry).
     }
     let mut v: Vec<LogEntry> = Vec::new();
     let mut k = 0;
@@ -94,8 +95,7 @@ fn check_view(s: &RaftStorage, e: &M, bound: usize) {
 pub fn step_append(l: usize, with_snap: bool, nb: usize, cfirst: u64) {
     let (s, m) = pre(l, with_snap, cfirst != 0);
     let first: u64 = if cfirst != 0 { cfirst } else { kani::any() };
-    let lo = match m.snap { Some((si, _)) => si, None => 0 };
-    kani::assume(first > lo && first < u64::MAX - 4);
+    kani::assume(first > 0 && first < u64::MAX - 4);
     let mut batch: Vec<LogEntry> = Vec::new();
     let mut e = M { idx: [0; MAXL], term: [0; MAXL], len: 0, snap: m.snap };
     // expected: old entries below `first`, then the batch
